@@ -317,6 +317,31 @@ func c15Eval(c c15Case) (ok bool, sig, detail string) {
 			}
 		}
 		locd[k] = located{rr, in}
+		// conformance of what the library locates with the features themselves: for a bare selector the located
+		// regions are, in table order, the residues each accepted feature denotes (strand and reading order included)
+		if len(c.Locs) == 1 && !strings.Contains(c.Locs[0], "@") {
+			if sel, okSel := parseRefSelector(c.Locs[0]); okSel && c.Locs[0] != "" && !rePoint.MatchString(c.Locs[0]) && !reRange.MatchString(c.Locs[0]) && !strings.HasPrefix(c.Locs[0], "complement(") {
+				if _, isMod := refModifier(c.Locs[0]); !isMod {
+					var want [][]ratom
+					for _, f := range menu[i].feats {
+						if sel.accepts(f) {
+							var aa []ratom
+							for _, a := range denOf(f.Loc).Bases() {
+								aa = append(aa, ratom{a.Pos, a.Rev})
+							}
+							want = append(want, aa)
+						}
+					}
+					var got [][]ratom
+					for _, r := range rr {
+						got = append(got, regionAtoms(r))
+					}
+					if fmt.Sprint(got) != fmt.Sprint(want) {
+						return false, "located-region-differs-from-feature", fmt.Sprintf("locator %q on record %s: the located regions cover %v, the selected features denote %v", c.Locs[0], menu[i].name, got, want)
+					}
+				}
+			}
+		}
 	}
 	args := []string{c.Cmd, "--no-cache"}
 	args = append(args, c.Opts...)
